@@ -2,8 +2,13 @@
 import json
 import vlib
 
-MODELS = ["t2r2", "t3r1", "t3r2"]
-DFS = [(2, 2, 4, 6), (2, 1, 6, 8), (3, 1, 3, 4), (3, 2, 2, 3)]   # nt, rounds, pb quick, pb thorough
+MODELS = ["t2r2", "t3r1", "t3r2", "abort_t3r1", "abort_t3r2"]
+# nt, rounds (a<t>: contender t gives up when it finds itself waiting before its watcher has run), pb quick, pb thorough
+DFS = [(2, 2, 4, 6), (2, 1, 6, 8), (3, 1, 3, 4), (3, 2, 2, 3), (3, "1a1", 3, 4), (2, "2a1", 4, 6), (3, "2a2", 2, 3)]
+
+
+def rounds_arg(r0):
+    return "%da%d" % (r0["rounds"], r0["aborter"]) if r0.get("aborter", -1) >= 0 else str(r0["rounds"])
 
 
 def parse(text):
@@ -64,6 +69,8 @@ def run_udeal(ctx):
     ctx.evaluations += runs
     ctx.extra["udeal_schedules_run_on_real_code"] = runs
     hists = [h for h, _ in pool]
+    if not any(e["e"] == "Abort" for h in hists for e in h):
+        raise vlib.ToolError("vacuity: no contender ever gave up (udeal_abort) in the schedules run")
     rej = ctx.validate_histories_1pass("Udeal_Trace", "Udeal_Trace.cfg", hists, tag="ud")
     seen = set()
     for idx, line, inv in rej:
@@ -74,10 +81,10 @@ def run_udeal(ctx):
         if key in seen:
             continue
         seen.add(key)
-        hs, _ = harness(ctx, binp, r0["nt"], r0["rounds"], ["replay", r0["sched"]])
+        hs, _ = harness(ctx, binp, r0["nt"], rounds_arg(r0), ["replay", r0["sched"]])
         rej2 = ctx.validate_histories_1pass("Udeal_Trace", "Udeal_Trace.cfg", hs, tag="udre") if hs else []
         if not rej2:
             raise vlib.ToolError("rejected udeal trace did not reproduce: %s" % r0)
         ctx.violation(key, "trace of the real udeal (%d contenders, %d rounds) rejected at event %d %s: %s"
                       % (r0["nt"], r0["rounds"], line, json.dumps(ev), key),
-                      {"cmd": "sched_udeal %d %d replay %s" % (r0["nt"], r0["rounds"], r0["sched"]), "trace": h, "source": source})
+                      {"cmd": "sched_udeal %d %s replay %s" % (r0["nt"], rounds_arg(r0), r0["sched"]), "trace": h, "source": source})
